@@ -324,3 +324,20 @@ def all_names(si, live_prefixes=None):
         for p in si.prefixes:
             out.append(('name', p, u))
     return out
+
+
+def importable(ctx):
+    """the package builds its unit database at import by evaluating builtin.py's definitions; if that fails, every
+    expression fails: reported as a violation with the import error as the observed outcome, not as a harness failure"""
+    try:
+        import pgradd.Units  # noqa
+        import pgradd.Consts  # noqa
+        return True
+    except Exception as e:
+        import traceback
+        tb = traceback.extract_tb(e.__traceback__)
+        where = ['%s:%d' % (f.filename.split('pgradd/')[-1], f.lineno) for f in tb if 'pgradd' in f.filename][-3:]
+        ctx.violation('pgradd.Units cannot be imported: a built-in unit definition does not evaluate',
+                      {'import': 'pgradd.Units'}, 'the unit database is built',
+                      {'err': errclass(e), 'message': str(e)[:200], 'where': where})
+        return False
